@@ -389,6 +389,17 @@ func c13Random(rr *prng.R, r *fw.Rec) {
 		case 1:
 			f = &jast.Lambda{Params: []string{"l", "r"}, Body: &jast.Call{Fn: &jast.Var{Name: "error"}, Args: []jast.Node{&jast.Str{V: "cmp"}}}}
 			cterms, tag = nil, "sort-comparator-error"
+		case 2:
+			// the comparator fails for one member only (its key has another type):
+			// wherever that member sits, the failure is the outcome of $sort
+			bad := items[rr.Intn(len(items))].(map[string]interface{})
+			if kinds[0] == "s" {
+				bad["k1"] = 7.0
+			} else {
+				bad["k1"] = "x"
+			}
+			f = &jast.Lambda{Params: []string{"l", "r"}, Body: one}
+			cterms, tag = nil, "sort-comparator-fails-for-one-member"
 		}
 		tree := &jast.Call{Fn: &jast.Var{Name: "sort"}, Args: []jast.Node{&jast.Name{V: "arr"}, f}}
 		var its []interface{}
